@@ -56,6 +56,7 @@ type modelVar struct {
 }
 
 type retInfo struct {
+	ptr  map[string]*Loc // what cells are known to point to at this return
 	at   Term
 	vals []Term
 	mem  map[string]Term
@@ -99,6 +100,7 @@ type frame struct {
 	newRefs  []Term
 	nret     int
 	tupleProvs map[ssa.Value]*Loc
+	ptrOut   map[*ssa.BasicBlock]map[string]*Loc
 }
 
 var _ = 0
@@ -506,13 +508,22 @@ func (e *enc) useMap(t Term, sort string, mt *types.Map) {
 	if e.wfSeen == nil {
 		e.wfSeen = map[string]bool{}
 	}
-	k := "map|" + sort + "|" + t
-	if e.wfSeen[k] || boundVarRe.MatchString(t) {
+	cur := "true"
+	if e.fr != nil && e.fr.cur != "" {
+		cur = e.fr.cur
+	}
+	k := "map|" + sort + "|" + t + "|" + cur
+	if e.wfSeen[k] || e.wfSeen["map|"+sort+"|"+t+"|true"] || boundVarRe.MatchString(t) {
 		return
 	}
 	e.wfSeen[k] = true
 	ks := e.so.of(mt.Key())
-	e.assume(fmt.Sprintf("(forall ((wf_k %s)) (! (=> (not (select (dom_%s %s) wf_k)) (= (select (val_%s %s) wf_k) %s)) :pattern ((select (val_%s %s) wf_k))))", ks, sort, t, sort, t, e.zero(mt.Elem()), sort, t))
+	fact := fmt.Sprintf("(forall ((wf_k %s)) (! (=> (not (select (dom_%s %s) wf_k)) (= (select (val_%s %s) wf_k) %s)) :pattern ((select (val_%s %s) wf_k))))", ks, sort, t, sort, t, e.zero(mt.Elem()), sort, t)
+	if cur == "true" {
+		e.assume(fact)
+	} else {
+		e.assume(fmt.Sprintf("(=> %s %s)", cur, fact)) // only on the path that uses the value
+	}
 }
 
 // zvalFacts: the value array of an empty map holds the zero value everywhere
@@ -529,12 +540,23 @@ func (e *enc) useSlice(t Term, sort string) {
 	if e.wfSeen == nil {
 		e.wfSeen = map[string]bool{}
 	}
-	k := sort + "|" + t
-	if e.wfSeen[k] || boundVarRe.MatchString(t) {
+	cur := "true"
+	if e.fr != nil && e.fr.cur != "" {
+		cur = e.fr.cur
+	}
+	k := sort + "|" + t + "|" + cur
+	if e.wfSeen[k] || e.wfSeen[sort+"|"+t+"|true"] || boundVarRe.MatchString(t) {
 		return
 	}
 	e.wfSeen[k] = true
-	e.assume(fmt.Sprintf("(and (>= (len_%s %s) 0) (=> (nil_%s %s) (= (len_%s %s) 0)))", sort, t, sort, t, sort, t))
+	// only on the path that uses the value: a slice computed on a path that is not taken (s[0:len(s)-1] of an empty s)
+	// is not well formed, and saying so unconditionally would make the whole script inconsistent
+	fact := fmt.Sprintf("(and (>= (len_%s %s) 0) (=> (nil_%s %s) (= (len_%s %s) 0)))", sort, t, sort, t, sort, t)
+	if cur == "true" {
+		e.assume(fact)
+	} else {
+		e.assume(fmt.Sprintf("(=> %s %s)", cur, fact))
+	}
 }
 
 // ---------- memory
@@ -725,6 +747,11 @@ func (l *Loc) objSort(e *enc) string {
 }
 
 func (e *enc) havocKey(k string) {
+	for pk := range e.ptrIn {
+		if pk == k || strings.HasPrefix(pk, k+"|") {
+			delete(e.ptrIn, pk)
+		}
+	}
 	e.mem[k] = e.fresh("hv_"+k, e.memSort[k])
 	if ty, ok := e.memTy[k]; ok && !strings.HasPrefix(k, "H:") {
 		e.assumeWF(e.mem[k], ty, 2)
